@@ -59,7 +59,9 @@
 (*                                                                         *)
 (* ACTIONS (one per public operation; OpNames in the cfg selects a family) *)
 (*   table : WriteText ReadText WriteHdf WriteHdfObj ReadHdf ReadAuto      *)
-(*           ReadMmap DropRow                                              *)
+(*           ReadMmap DropRow ConvHdf                                      *)
+(*           (ConvHdf = colfile_to_hdf(<name of a text columnfile>, hdf,   *)
+(*           name=g): the writer reads the other path's text file itself)  *)
 (*   pars  : SavePars LoadFresh LoadInto                                   *)
 (*   grains: WriteGrains ReadGrains WriteUbis ReadUbis WriteGrainsH5       *)
 (*           ReadGrainsH5 PutGrainH5 Reverse                               *)
@@ -97,14 +99,37 @@
 (*     existing dictionary and renames "-" to "_"                          *)
 (*                                                                         *)
 (* BOUNDS  2 paths, 2 objects, <= 2 groups, seed objects from Tables /     *)
-(* ParSets / GLists / Frames (<= 3 titles, <= 2 rows, <= 3 grains, <= 3    *)
-(* pixels), depth MaxDepth = 3..5 (cfg files).  All integers < 2^31.       *)
+(* ParSets / GLists / Frames (<= 3 titles (7 in table 7), <= 2 rows, <= 3  *)
+(* grains, <= 3 pixels), depth MaxDepth = 2..5 (cfg files).  Integers      *)
+(* < 2^31.                                                                 *)
+(*                                                                         *)
 (*   Storage_tab_q   quick   table, 1 group, depth 3, emitted + replayed   *)
 (*   Storage_tab_t   thorough table, 2 groups, depth 3, emitted + replayed *)
 (*   Storage_tab_t4  thorough table, 1 group, depth 4, emitted + replayed  *)
 (*   Storage_tab_d5  thorough table, core operations, depth 5, invariants  *)
+(*   Storage_title   both tiers: table 7, one path, depth 2, emitted; the  *)
+(*                   write-then-read leaves are replayed per title batch   *)
 (*   Storage_par_q/t, Storage_gr_q/t, Storage_sp_q/t  other families       *)
 (*   Storage_stale   expected violation of InvStale (F11 counterexample)   *)
+(*                                                                         *)
+(* WHAT THE MODEL IS COVARIANT IN (instance families of the harness, the   *)
+(* model's expected worlds are transported by the same substitution):      *)
+(*   - the NAME of a title inside its format class: FmtOf / IsInt depend   *)
+(*     on the class only.  Storage_title.cfg (table 7: one column per      *)
+(*     class, three for EXPONENTIALS) is replayed once per batch k with    *)
+(*     the model titles replaced by the k-th titles of the harness's       *)
+(*     PINNED copies of FLOATS / INTS / LONGFLOATS / EXPONENTIALS (179     *)
+(*     titles, harness/c18_widen.py) and of a list of unknown names: every *)
+(*     title of the table is written and read by every route and compared  *)
+(*     with this model's decimals (a title moved between classes, dropped  *)
+(*     from FORMATS or from the INTS test of an hdf writer differs).       *)
+(*   - the dtype of sparse pixel arrays and of the row/col indices: "i" /  *)
+(*     "f" stand for one integer / one float dtype per history (int32,     *)
+(*     uint16, int64, uint8 / float64, float32; itype uint16, uint32,      *)
+(*     int32); the harness compares dtype.str and the itype attribute.     *)
+(*   - the dtype of in-memory table columns (float32 columns in the        *)
+(*     widened pass), compression options of colfile_to_hdf, default group *)
+(*     names (harness/c18_extra.py).                                       *)
 (***************************************************************************)
 EXTENDS Integers, Sequences, FiniteSets, TLC, Json
 
@@ -122,6 +147,9 @@ vars == <<wa, wf, hist, depth>>
 \* the name of the last operation is part of the view: operations that lead to the same state
 \* (ReadAuto / ReadHdf on a file with one group) each get their own representative history
 View == <<wa, wf, depth, hist[Len(hist)].op>>
+\* Storage_title.cfg: every history is its own state (both hdf writers leave the same file, and the
+\* harness wants every writer followed by every reader)
+ViewAll == <<wa, wf, depth, hist>>
 
 -----------------------------------------------------------------------------
 \* generic helpers
@@ -259,12 +287,13 @@ Spell(tv) == IF tv.ty = "int" THEN [sp |-> "I", n |-> tv.n, s |-> ""]
              ELSE IF tv.ty = "float" THEN [sp |-> "F", n |-> tv.n, s |-> ""]
              ELSE IF tv.s = "12" THEN [sp |-> "I", n |-> V(1, 12, 0), s |-> ""]    \* numeric looking string
              ELSE IF tv.s = "1e5" THEN [sp |-> "F", n |-> V(1, 1, 5), s |-> ""]
+             ELSE IF tv.s = "1_000" THEN [sp |-> "I", n |-> V(1, 1000, 0), s |-> ""]   \* int("1_000") = 1000
              ELSE [sp |-> "S", n |-> Zero, s |-> tv.s]
 Coerce(sp) == IF sp.sp = "I" THEN TI(sp.n) ELSE IF sp.sp = "F" THEN TF(sp.n) ELSE TS(sp.s)
 \* domain of the parameter clause: identifier-like names, strings that do not parse as numbers
 NameIn(n) == IF n = "t-u" THEN "t_u" ELSE n
 InDomainPar(n, tv) == /\ n \notin {"t-u", "filename"}
-                      /\ ~(tv.ty = "str" /\ tv.s \in {"12", "1e5"})
+                      /\ ~(tv.ty = "str" /\ tv.s \in {"12", "1e5", "1_000"})
 ParsPreserved(a, b) == /\ \A n \in DOMAIN a : InDomainPar(n, a[n]) => (n \in DOMAIN b /\ b[n] = a[n])
                        /\ \A n \in DOMAIN b : n \in {NameIn(m) : m \in DOMAIN a} \cup {"filename"}
 NoFilename(f) == [n \in (DOMAIN f) \ {"filename"} |-> f[n]]
@@ -287,7 +316,7 @@ PathTok(p) == "@" \o p
 \* titles of the model and their documented format class (columnfile.py:38-130)
 FmtOf(t) == CASE t = "sc" -> "f4"                      \* FLOATS       "%.4f"
               [] t = "Number_of_pixels" -> "f0"        \* INTS         "%.0f"
-              [] t = "eps11" -> "e4"                   \* EXPONENTIALS "%.4e"
+              [] t \in {"eps11", "e11e12_s", "s22s33"} -> "e4"   \* EXPONENTIALS "%.4e"
               [] t = "UBI11" -> "f12"                  \* LONGFLOATS   "%.12f"
               [] OTHER -> "f6"                         \* unknown      "%f"
 IsInt(t) == t \in {"Number_of_pixels"}
@@ -297,7 +326,7 @@ HardWired == << "sc", "fc", "omega", "Number_of_pixels", "avg_intensity", "s_raw
                 "IMax_int", "IMax_s", "IMax_f", "IMax_o", "Min_s", "Max_s", "Min_f", "Max_f", "Min_o",
                 "Max_o", "dety", "detz", "onfirst", "onlast", "spot3d_id", "xl", "yl", "zl", "tth",
                 "eta", "gx", "gy", "gz" >>
-AlphaOrder == << "Number_of_pixels", "UBI11", "eps11", "foo", "sc" >>   \* ASCII order of the model titles
+AlphaOrder == << "Number_of_pixels", "UBI11", "e11e12_s", "eps11", "foo", "s22s33", "sc" >>   \* ASCII order of the model titles
 GroupAlpha == << "other", "peaks" >>
 HdfOrder(S) == Sel(HardWired, S) \o Sel(AlphaOrder, S \ Range(HardWired))
 
@@ -323,7 +352,17 @@ Tables == <<
       ("Number_of_pixels" :> <<V(1, 1, 12), V(1, 3, 0)>>) @@ ("sc" :> <<V(1, 9375, -5), V(-1, 3125, -5)>>)),
   \* 6: LONGFLOATS, one row, string parameter with "=" and blank inside
   Tab(Pars6, <<"foo", "UBI11">>,
-      ("foo" :> <<V(1, 15, -1)>>) @@ ("UBI11" :> <<V(1, 1220703125, -13)>>))
+      ("foo" :> <<V(1, 15, -1)>>) @@ ("UBI11" :> <<V(1, 1220703125, -13)>>)),
+  \* 7: one column per format class (three EXPONENTIALS), values that tell every class from every other
+  \*    (title enumeration, Storage_title.cfg: the harness substitutes every pinned title of the class)
+  Tab(Empty, <<"Number_of_pixels", "sc", "eps11", "e11e12_s", "s22s33", "UBI11", "foo">>,
+      ("Number_of_pixels" :> <<V(1, 25, -1), V(1, 1, 12)>>)
+      @@ ("sc" :> <<V(1, 3125, -5), V(1, 1234567891, -5)>>)
+      @@ ("eps11" :> <<V(1, 100005, 0), V(-1, 1, -12)>>)
+      @@ ("e11e12_s" :> <<V(1, 1234567891, -9), V(1, 100015, 0)>>)
+      @@ ("s22s33" :> <<V(-1, 1234567891, -5), V(1, 1, -12)>>)
+      @@ ("UBI11" :> <<V(1, 1220703125, -13), V(1, 1234567891, -9)>>)
+      @@ ("foo" :> <<V(1, 78125, -7), NegZero>>))
 >>
 
 Nrows(x) == IF Len(x.titles) = 0 THEN 0 ELSE Len(x.cols[x.titles[1]])
@@ -389,9 +428,8 @@ ReadMmapOp(w, p, g, o) ==
 
 \* colfile_to_hdf (columnfile.py:556-602).  Titles are processed in order; the first existing
 \* dataset of another length raises TypeError, what was written before stays.
-WriteHdfOp(w, o, p, g, fix) ==
-    LET x == w.mem[o]
-        f == w.fs[p]
+WriteHdfFrom(w, x, p, g, fix) ==
+    LET f == w.fs[p]
     IN IF x.k # "table" \/ IsTextLike(f) THEN Fail(w)
        ELSE LET base == IF f.k = "none" THEN EmptyHdf ELSE f
                 old == IF g \in DOMAIN base.groups THEN base.groups[g].ds ELSE Empty
@@ -406,6 +444,12 @@ WriteHdfOp(w, o, p, g, fix) ==
                 nf == [k |-> "hdf", groups |-> [h \in (DOMAIN base.groups) \cup {g} |->
                                                    IF h = g THEN grp ELSE base.groups[h]]]
             IN SetFs(w, p, nf, IF bad = {} THEN "ok" ELSE "err")
+WriteHdfOp(w, o, p, g, fix) == WriteHdfFrom(w, w.mem[o], p, g, fix)
+\* colfile_to_hdf(<file name>, hdffile, name=g) (columnfile.py:574-577): the first argument is not a
+\* columnfile object, the writer reads it with columnfile(name).  Source = the text file at the other path.
+Other(p) == CHOOSE q \in Paths : q # p
+ConvHdfOp(w, p, g, fix) == IF w.fs[Other(p)].k # "text" THEN Fail(w)
+                           ELSE WriteHdfFrom(w, ParseText(w.fs[Other(p)], Other(p)), p, g, fix)
 \* colfileobj_to_hdf (columnfile.py:604-624): create_group, refuses an existing group
 WriteHdfObjOp(w, o, p, g) ==
     LET x == w.mem[o]
@@ -463,7 +507,7 @@ MemOK(w) == \A o \in Objs : w.mem[o].k = "table" =>
                          /\ \A t \in DOMAIN x.cols : Len(x.cols[t]) = Nrows(x)
                          /\ Len(x.titles) = Cardinality(Range(x.titles))
 
-TableOps == {"WriteText", "ReadText", "WriteHdf", "WriteHdfObj", "ReadHdf", "ReadAuto", "ReadMmap", "DropRow"}
+TableOps == {"WriteText", "ReadText", "WriteHdf", "WriteHdfObj", "ReadHdf", "ReadAuto", "ReadMmap", "DropRow", "ConvHdf"}
 
 -----------------------------------------------------------------------------
 \* ============================ family "pars" ===============================
@@ -473,7 +517,9 @@ ParSets == <<
   ParObj(("a" :> TI(V(-1, 3, 0))) @@ ("d" :> TF(NegZero)) @@ ("e" :> TF(V(1, 1, 12)))
          @@ ("f" :> TF(V(1, 1, -12))) @@ ("g" :> TF(V(1, 1234567891, -5)))),
   ParObj(("c" :> TS("a=b")) @@ ("h" :> TS("12")) @@ ("j" :> TF(V(1, 3, 0))) @@ ("k" :> TI(V(1, 1, 12)))
-         @@ ("l" :> TS("P21/c")) @@ ("m" :> TS("1e5"))),
+         @@ ("l" :> TS("P21/c")) @@ ("m" :> TS("1e5"))
+         \* "0x10" is accepted by neither float() nor int(): a string; "1_000" is an int for python 3
+         @@ ("x" :> TS("0x10")) @@ ("y" :> TS("1_000"))),
   ParObj(("t-u" :> TI(V(1, 5, 0))) @@ ("b" :> TF(V(1, 3, 0))) @@ ("z" :> TI(Zero)))
 >>
 RenderPars(x) == [k |-> "par", pars |-> [n \in DOMAIN x.pars |-> Spell(x.pars[n])], src |-> x]
@@ -499,18 +545,24 @@ ParOps == {"SavePars", "LoadFresh", "LoadInto"}
 
 -----------------------------------------------------------------------------
 \* ============================ family "grains" =============================
-Gr(ubi, tr, hasnm, nm, npks, nuniq) ==
-    [ubi |-> ubi, tr |-> tr, hasnm |-> hasnm, nm |-> nm, npks |-> npks, nuniq |-> nuniq]
+\* ii = the optional intensity_info string (grain.py:326 / STRINGATTRS), "" = attribute absent.  The
+\* property names UBI, translation, names and peak counts; intensity_info is carried because its
+\* line sits between #name and #npks in the text file (a damaged line damages its neighbours).
+\* The "#Rod" line that write_grain_file always emits is derived from the UBI and is not modelled.
+Gr7(ubi, tr, hasnm, nm, npks, nuniq, ii) ==
+    [ubi |-> ubi, tr |-> tr, hasnm |-> hasnm, nm |-> nm, npks |-> npks, nuniq |-> nuniq, ii |-> ii]
+Gr(ubi, tr, hasnm, nm, npks, nuniq) == Gr7(ubi, tr, hasnm, nm, npks, nuniq, "")
 I(n) == V(1, n, 0)
 UbiA == << V(1, 1234567891, -9), V(1, 5, -1), NegZero,
            Zero, V(1, 1001953125, -9), V(1, 3125, -5),
            V(1, 1, -12), V(1, 25, -2), V(1, 1005859375, -9) >>
 UbiB == << I(3), Zero, Zero, Zero, I(3), Zero, Zero, Zero, I(3) >>
 UbiC == << I(2), V(-1, 78125, -7), Zero, V(1, 78125, -7), I(2), Zero, Zero, Zero, V(1, 4123457, -6) >>
-GrA == Gr(UbiA, << V(1, 1000005, 0), NegZero, V(1, 1, -12) >>, TRUE, "g one", 17, 12)
+GrA == Gr7(UbiA, << V(1, 1000005, 0), NegZero, V(1, 1, -12) >>, TRUE, "g one", 17, 12,
+           "sum_of_all = 123.5 , middle 4 = 1e3")
 GrB == Gr(UbiB, << >>, TRUE, "0:UBI_2.flt", -1, -1)
 GrC == Gr(UbiC, << V(1, 1015625, -6), V(-1, 1046875, -6), V(1, 1234567891, -5) >>, FALSE, "", 5, -1)
-GrD == Gr(UbiB, << >>, FALSE, "", -1, -1)
+GrD == Gr7(UbiB, << >>, FALSE, "", -1, -1, "no_name mean = 2")
 GLists == << [k |-> "grains", gl |-> <<GrA, GrB, GrC>>],
              [k |-> "grains", gl |-> <<GrC, GrD>>],
              [k |-> "grains", gl |-> <<GrB>>] >>
@@ -553,7 +605,8 @@ MergeGrain(old, new) ==
      hasnm |-> old.hasnm \/ new.hasnm,
      nm |-> IF new.hasnm THEN new.nm ELSE old.nm,
      npks |-> IF new.npks < 0 THEN old.npks ELSE new.npks,
-     nuniq |-> IF new.nuniq < 0 THEN old.nuniq ELSE new.nuniq]
+     nuniq |-> IF new.nuniq < 0 THEN old.nuniq ELSE new.nuniq,
+     ii |-> IF new.ii = "" THEN old.ii ELSE new.ii]
 PutGrainH5Op(w, o, p, g) ==
     LET x == w.mem[o]
         f == w.fs[p]
@@ -573,6 +626,7 @@ GrainRT(w) == \A p \in Paths : w.fs[p].k = "gtext" =>
             /\ \A j \in 1..Len(x.gl[i].tr) : Bound("g6", x.gl[i].tr[j], f.gl[i].tr[j])
             /\ f.gl[i].hasnm = x.gl[i].hasnm /\ f.gl[i].nm = x.gl[i].nm
             /\ f.gl[i].npks = x.gl[i].npks /\ f.gl[i].nuniq = x.gl[i].nuniq
+            /\ f.gl[i].ii = x.gl[i].ii
 GrainIdem(w) == \A p \in Paths : w.fs[p].k = "gtext" => RenderGrains(GObj(w.fs[p].gl)).gl = w.fs[p].gl
 UbiRT(w) == \A p \in Paths : w.fs[p].k = "utext" =>
     LET f == w.fs[p] IN /\ Len(f.ubis) = Len(f.src.gl)
@@ -664,6 +718,7 @@ Apply(w, a, fix) ==
       [] a.op = "ReadAuto"      -> ReadAutoOp(w, a.p, a.o)
       [] a.op = "ReadMmap"      -> ReadMmapOp(w, a.p, a.g, a.o)
       [] a.op = "DropRow"       -> DropRowOp(w, a.o)
+      [] a.op = "ConvHdf"       -> ConvHdfOp(w, a.p, a.g, fix)
       [] a.op = "SavePars"      -> SaveParsOp(w, a.o, a.p)
       [] a.op = "LoadFresh"     -> LoadFreshOp(w, a.p, a.o)
       [] a.op = "LoadInto"      -> LoadIntoOp(w, a.p, a.o)
@@ -699,6 +754,9 @@ ReadMmap == "ReadMmap" \in OpNames /\ \E o \in Objs, p \in Paths, g \in Groups :
 DropRow == "DropRow" \in OpNames /\ \E o \in Objs : /\ wa.mem[o].k = "table" /\ wf.mem[o].k = "table"
                            /\ Nrows(wa.mem[o]) >= 2 /\ Nrows(wf.mem[o]) >= 2
                            /\ Step(Op("DropRow", o, "", ""))
+ConvHdf == "ConvHdf" \in OpNames /\ \E p \in Paths, g \in Groups :
+               /\ Cardinality(Paths) = 2 /\ wa.fs[Other(p)].k = "text" /\ wf.fs[Other(p)].k = "text"
+               /\ Step(Op("ConvHdf", "", p, g))
 SavePars == "SavePars" \in OpNames /\ \E o \in Objs, p \in Paths : Step(Op("SavePars", o, p, ""))
 LoadFresh == "LoadFresh" \in OpNames /\ \E o \in Objs, p \in Paths : Exists(p) /\ Step(Op("LoadFresh", o, p, ""))
 LoadInto == "LoadInto" \in OpNames /\ \E o \in Objs, p \in Paths : Exists(p) /\ Step(Op("LoadInto", o, p, ""))
@@ -724,7 +782,7 @@ Init == \E sd \in SeedTuples :
            /\ depth = 0
 
 \* a plain disjunction of named actions (TLC reports coverage per action); OpNames selects the family
-Next == \/ WriteText \/ ReadText \/ WriteHdf \/ WriteHdfObj \/ ReadHdf \/ ReadAuto \/ ReadMmap \/ DropRow
+Next == \/ WriteText \/ ReadText \/ WriteHdf \/ WriteHdfObj \/ ReadHdf \/ ReadAuto \/ ReadMmap \/ DropRow \/ ConvHdf
         \/ SavePars \/ LoadFresh \/ LoadInto
         \/ WriteGrains \/ ReadGrains \/ WriteUbis \/ ReadUbis \/ WriteGrainsH5 \/ ReadGrainsH5 \/ PutGrainH5 \/ Reverse
         \/ WriteSparse \/ ReadSparse
@@ -749,6 +807,7 @@ TypeOK == /\ depth = Len(hist) - 1
 SeedsTabQ == {<<1, 2>>, <<1, 3>>, <<4, 5>>, <<6, 3>>}
 SeedsTabT == {<<1, 2>>, <<1, 3>>, <<4, 5>>, <<6, 3>>, <<5, 1>>, <<2, 4>>}
 SeedsStale == {<<1, 2>>}
+SeedsTitle == {<<7, 7>>}
 SeedsPar == {<<1, 2>>, <<3, 4>>, <<2, 3>>, <<4, 1>>}
 SeedsGr == {<<1, 2>>, <<2, 3>>, <<3, 1>>}
 SeedsSp == {<<1, 2>>, <<1, 3>>, <<4, 2>>, <<3, 4>>}
